@@ -194,6 +194,15 @@ func endToEnd(r *vkit.R) {
 				}
 			}
 			ref := refPolicies(ps, q)
+			// A share of the requests arrives as an ALLOWED impersonation (the bed's authorizer allows everything): another
+			// identity authenticates and asks to act as q.User with q.Groups. The request's user and groups are then the
+			// impersonated ones (they are what the upstream is told and what the request is handled as), so the routing
+			// decision must be the one for q, not the one for the impersonator.
+			var impersonator *Req
+			if len(q.Groups) > 0 && q.User != "" && g.Chance(0.3) {
+				impersonator = &Req{User: g.Pick([]string{"imp-admin", "admin", "bob", "system:serviceaccount:kube-system:sa1"}), Groups: []string{g.Pick(ugroups)}}
+				r.Count("e2e_impersonated", 1)
+			}
 			// same attribute tuple twice with different irrelevant inputs: the decision must be the same
 			for variant := 0; variant < 2; variant++ {
 				idn++
@@ -204,7 +213,17 @@ func endToEnd(r *vkit.R) {
 				} else {
 					body = bytes.NewReader(nil)
 				}
-				req := bed.NewRequest(method, "c01.e2e", path, tokenFor(q), id, body)
+				tok := tokenFor(q)
+				if impersonator != nil {
+					tok = tokenFor(impersonator)
+				}
+				req := bed.NewRequest(method, "c01.e2e", path, tok, id, body)
+				if impersonator != nil {
+					req.Header.Set("Impersonate-User", q.User)
+					for _, grp := range q.Groups {
+						req.Header.Add("Impersonate-Group", grp)
+					}
+				}
 				if variant == 1 {
 					req.Header.Set("X-Irrelevant", fmt.Sprint(g.Uint64()))
 					req.Header.Set("Accept", "application/json")
@@ -223,6 +242,32 @@ func endToEnd(r *vkit.R) {
 						got = si
 					}
 				}
+				ref := ref
+				if impersonator != nil {
+					// The identity an impersonated request is handled as is the one the upstream is told (the gateway adds
+					// system:authenticated to the asked groups). When the request was forwarded that identity is read at the
+					// stub; when it was not, the verdict is only given if the asked groups with and without
+					// system:authenticated lead to the same reference decision.
+					withAuth := *q
+					withAuth.Groups = append(append([]string{}, q.Groups...), "system:authenticated")
+					refA := refPolicies(ps, &withAuth)
+					if got >= 0 {
+						seen, _ := stubs[got].Get(id)
+						told := *q
+						told.User = strings.Join(seen.Header["Impersonate-User"], ",")
+						told.Groups = append([]string{}, seen.Header["Impersonate-Group"]...)
+						ref = refPolicies(ps, &told)
+						r.Count("e2e_impersonated_judged_by_the_identity_told_upstream", 1)
+						asImp := told
+						asImp.User, asImp.Groups = impersonator.User, impersonator.Groups
+						if refPolicies(ps, &asImp) != ref {
+							r.Count("e2e_impersonated_where_the_impersonator_would_be_routed_differently", 1)
+						}
+					} else if refA != ref {
+						r.Count("e2e_impersonated_not_forwarded_ambiguous_not_judged", 1)
+						continue
+					}
+				}
 				r.Eval(1)
 				r.Count("e2e_requests", 1)
 				r.Distinct(vkit.Hash64("e2e", fmt.Sprintf("%+v|%s %s|%+v", ps, method, path, *q)))
@@ -231,7 +276,7 @@ func endToEnd(r *vkit.R) {
 				} else {
 					r.Count("e2e_nomatch_expected", 1)
 				}
-				w := map[string]interface{}{"policies": ps, "method": method, "path": path, "attributes": q, "reference": ref, "stub": got, "status": resp.Status, "variant": variant}
+				w := map[string]interface{}{"policies": ps, "method": method, "path": path, "attributes": q, "reference": ref, "stub": got, "status": resp.Status, "variant": variant, "impersonated_by": impersonator}
 				switch {
 				case hits > 1:
 					r.Violation("C01/e2e/forwarded-more-than-once", fmt.Sprintf("request %s reached %d stubs", id, hits), w)
